@@ -4,7 +4,7 @@ from typing import Any, Callable, Dict, List, Optional, Tuple
 
 import icontract
 
-from vfw.hlib import Tag, drive, RecRepr
+from vfw.hlib import Tag, drive, RecRepr, Suspend
 from vfw.prog import (
     Prog,
     effective,
@@ -16,15 +16,19 @@ _CODE_CACHE = {}  # type: Dict[Tuple[Any, ...], Any]
 
 
 def mkfn(params: Tuple[str, ...], impl: Callable[[Dict[str, Any]], Any], is_async: bool = False,
-         name: str = "fn", defaults: Optional[Dict[str, Any]] = None) -> Callable[..., Any]:
-    """Create ``def name(<params>): return impl({<param>: <param>, ...})`` (cached code object)."""
-    key = (params, is_async, name)
+         name: str = "fn", awaiting: bool = False) -> Callable[..., Any]:
+    """Create ``def name(<params>): return impl({<param>: <param>, ...})`` (cached code object).
+
+    ``is_async``: ``async def``; ``awaiting``: ``return await impl(...)`` (impl returns an awaitable).
+    """
+    key = (params, is_async, name, awaiting)
     code = _CODE_CACHE.get(key)
     if code is None:
-        src = "{}def {}({}):\n    return __impl__({{{}}})\n".format(
+        src = "{}def {}({}):\n    return {}__impl__({{{}}})\n".format(
             "async " if is_async else "",
             name,
             ", ".join(params),
+            "await " if awaiting else "",
             ", ".join("{!r}: {}".format(p.lstrip("*"), p.lstrip("*")) for p in params if p not in ("/", "*")),
         )
         ns = {}  # type: Dict[str, Any]
@@ -93,6 +97,9 @@ class Built:
         self.classes = []  # type: List[type]
         self.bare = None  # type: Any
         self.rec = _BuiltRepr(self)
+        #: 0 = plain conditions/captures; 1 = coroutine functions (suspending once); 2 = plain functions
+        #: returning an awaitable
+        self.async_conds = 0
         self.errors = {}  # type: Dict[Tuple[Any, ...], Any]   # label -> class / instance
         self.names = {}  # type: Dict[str, Tuple[Any, ...]]   # condition __name__ -> label
 
@@ -171,7 +178,22 @@ def _cond(built: Built, role: str, lvl: int, i: int, params: Tuple[str, ...], is
 
     name = "{}_{}_{}".format(role, lvl, i)
     built.names[name] = label
-    return mkfn(params, impl, is_async=is_async, name=name)
+    return _maybe_async(built, params, impl, name, role != "inv")
+
+
+def _maybe_async(built: "Built", params: Tuple[str, ...], impl: Callable[[Dict[str, Any]], Any], name: str,
+                 allowed: bool) -> Callable[..., Any]:
+    mode = built.async_conds if allowed else 0
+    if mode == 0:
+        return mkfn(params, impl, name=name)
+
+    async def aimpl(kw: Dict[str, Any]) -> Any:
+        await Suspend()
+        return impl(kw)
+
+    if mode == 1:
+        return mkfn(params, aimpl, is_async=True, name=name, awaiting=True)
+    return mkfn(params, aimpl, name=name)  # a plain function returning a coroutine object
 
 
 def _capture(built: Built, lvl: int, i: int, params: Tuple[str, ...]) -> Callable[..., Any]:
@@ -183,7 +205,7 @@ def _capture(built: Built, lvl: int, i: int, params: Tuple[str, ...]) -> Callabl
             return rt.capture(lvl, i, kw)
         return ("captured", lvl, i)
 
-    return mkfn(params, impl, name="cap_{}_{}".format(lvl, i))
+    return _maybe_async(built, params, impl, "cap_{}_{}".format(lvl, i), True)
 
 
 def _body(built: Built, params: Tuple[str, ...], is_async: bool, name: str, kind: str) -> Callable[..., Any]:
@@ -203,24 +225,11 @@ def _body(built: Built, params: Tuple[str, ...], is_async: bool, name: str, kind
         return None
 
     if is_async:
-        async def aimpl_wrapper(kw: Dict[str, Any]) -> Any:
+        async def aimpl(kw: Dict[str, Any]) -> Any:
+            await Suspend()
             return impl(kw)
 
-        # ``async def f(x): return await __impl__(...)`` would need another template; instead the
-        # generated async function returns the coroutine's result by awaiting it here.
-        src_key = (params, True, name, "await")
-        code = _CODE_CACHE.get(src_key)
-        if code is None:
-            src = "async def {}({}):\n    return await __impl__({{{}}})\n".format(
-                name, ", ".join(params), ", ".join("{!r}: {}".format(p, p) for p in params)
-            )
-            ns = {}  # type: Dict[str, Any]
-            exec(compile(src, "<vfw.build:{}>".format(name), "exec"), ns)
-            code = ns[name].__code__
-            _CODE_CACHE[src_key] = code
-        fn = types.FunctionType(code, {"__impl__": aimpl_wrapper}, name)
-        fn.__qualname__ = name
-        return fn
+        return mkfn(params, aimpl, is_async=True, name=name, awaiting=True)
     return mkfn(params, impl, name=name)
 
 
@@ -273,10 +282,11 @@ _CHECK_ON = {
 
 
 def build(prog: Prog, rt: Optional[RT], use_dbc: bool = True, root_init: bool = True,
-          error_mode: Optional[str] = None) -> Built:
+          error_mode: Optional[str] = None, async_conds: int = 0) -> Built:
     """Create the real program.  May raise what icontract raises at definition time."""
     assert prog.valid(), prog
     built = Built(prog, rt, error_mode or (rt.error_mode if rt is not None else "factory"))
+    built.async_conds = async_conds
     rt = built  # the helpers below take the Built (static part); run-time state is built.rt
     kind = prog.kind
     if kind == "func":
@@ -334,17 +344,19 @@ def build(prog: Prog, rt: Optional[RT], use_dbc: bool = True, root_init: bool = 
 _BUILT_CACHE = {}  # type: Dict[Tuple[Any, ...], Any]
 
 
-def get_built(prog: Prog, error_mode: str, use_dbc: bool = True, root_init: bool = True) -> Any:
+def get_built(prog: Prog, error_mode: str, use_dbc: bool = True, root_init: bool = True,
+              async_conds: int = 0) -> Any:
     """Build (once per process, natively) the program for concrete selectors; returns Built or the
     exception instance that icontract raised at definition time."""
     from vfw.hlib import untraced
 
-    key = (prog, error_mode, use_dbc, root_init)
+    key = (prog, error_mode, use_dbc, root_init, async_conds)
     with untraced():
         hit = _BUILT_CACHE.get(key)
         if hit is None:
             try:
-                hit = build(prog, None, use_dbc=use_dbc, root_init=root_init, error_mode=error_mode)
+                hit = build(prog, None, use_dbc=use_dbc, root_init=root_init, error_mode=error_mode,
+                            async_conds=async_conds)
             except (TypeError, ValueError) as err:
                 hit = err
             _BUILT_CACHE[key] = hit
